@@ -111,7 +111,7 @@ def ensure(tus, native_too=True, jobs=16):
             'tree_hash': tree_hash(), 'repo_hash': repo_hash()}
 
 
-def prune(keep=3):
+def prune(keep=6):
     """Keep only the most recently used build directories (disk is limited)."""
     if not os.path.isdir(BUILD):
         return
@@ -123,7 +123,7 @@ def prune(keep=3):
         if os.path.basename(d) == cur:
             continue
         kept += 1
-        if kept >= keep:
+        if kept >= keep and time.time() - os.path.getmtime(d) > 1800:
             shutil.rmtree(d, ignore_errors=True)
     p = os.path.join(BUILD, cur)
     if os.path.isdir(p):
